@@ -42,7 +42,7 @@ Proof.
                 (fun _ _ H => H)
                 (fun _ _ _ => forall_true _)
                 (fun _ _ _ => I) (fun _ _ _ _ => I) (cfg_self c Hc) (fun _ _ => I)
-                (fun _ _ _ _ _ _ _ _ _ _ => I)
+                (fun _ _ _ _ _ _ _ _ _ _ _ _ _ => I)
                 eq_refl Hpv (W_true c g Hw)) as HS.
   destruct (HS s (forall_true s) Ht) as (A & B & C).
   split; [|split; [|split]].
@@ -73,7 +73,7 @@ Proof.
                 (fun _ _ H => proj1 H)
                 (fun _ _ _ => forall_true _)
                 (fun _ _ _ => I) (fun _ _ _ _ => I) (cfg_self c Hc) (fun _ _ => I)
-                (fun _ _ _ _ _ _ _ _ _ _ => I)
+                (fun _ _ _ _ _ _ _ _ _ _ _ _ _ => I)
                 eq_refl Hpv (W_true c g Hw)) as HS.
   destruct (HS s (forall_true s) Ht) as (_ & B & C).
   destruct (C o Ho) as (_ & _ & Hidle & _).
@@ -100,7 +100,7 @@ Proof.
                 (fun _ _ H => H)
                 (fun _ _ _ => forall_true _)
                 (fun _ _ _ => I) (fun _ _ _ _ => I) (cfg_self c Hc) (fun _ _ => I)
-                (fun _ _ _ _ _ _ _ _ _ _ => I)
+                (fun _ _ _ _ _ _ _ _ _ _ _ _ _ => I)
                 eq_refl Hpv (W_true c g Hw)) as HS.
   destruct (HS s (forall_true s) Ht) as (_ & _ & C).
   destruct (C _ Ho) as (_ & Hadv & _).
